@@ -24,14 +24,15 @@ Log == ndJsonDeserialize(IOEnv.TRACE)
 VARIABLES l,        \* next line
           plan,     \* outcome the specification computes for the build in progress (or NoPlan)
           nodes, paths,   \* the execution's node table and path table (from the Reset line)
-          sigmap    \* pairs <<specification signature, implementation signature>> seen so far
-tvars == <<vars, l, plan, nodes, paths, sigmap>>
+          sigmap,   \* pairs <<specification signature, implementation signature>> seen so far
+          aborting  \* the build in progress is one that the client cancels at the first failure (see "Aborted builds")
+tvars == <<vars, l, plan, nodes, paths, sigmap, aborting>>
 
 ev == Log[l]
 Is(e) == l <= Len(Log) /\ ev.e = e /\ l' = l + 1
 NoPlan == [none |-> TRUE]
 HavePlan == "fs" \in DOMAIN plan
-Keep == UNCHANGED <<nodes, paths, sigmap>>
+Keep == UNCHANGED <<nodes, paths, sigmap, aborting>>
 
 EmptyDesc == [cmds |-> <<>>, nodes |-> <<>>, targets |-> <<>>, paths |-> <<>>]
 
@@ -45,7 +46,7 @@ TReset ==
   /\ fs' = ev.fs
   /\ desc' = [EmptyDesc EXCEPT !.nodes = ev.nodes, !.paths = ev.paths]
   /\ mem' = <<>> /\ db' = <<>> /\ epoch' = 0 /\ hasdb' = FALSE /\ last' = NoLast
-  /\ plan' = NoPlan /\ sigmap' = {}
+  /\ plan' = NoPlan /\ sigmap' = {} /\ aborting' = FALSE
 
 TFrontend ==
   /\ Is("Frontend") /\ ~HavePlan
@@ -69,7 +70,7 @@ TMutate ==
 (* every modelled rule the engine decided to run, with its reason - and nothing else *)
 NeedSet(rs) == {[k |-> rs[i].k, reason |-> rs[i].reason] : i \in {j \in 1..Len(rs) : Modelled(rs[j].k) /\ ~IsDirNode(rs[j].k)}}
 TNeeds ==
-  /\ Is("Needs") /\ HavePlan
+  /\ Is("Needs") /\ HavePlan /\ ~aborting
   /\ NeedSet(ev.list) = NeedSet(plan.reasons)
   /\ \A i \in 1..Len(ev.list) :        \* a reported triggering input is a recorded, non-order-only dependency of the rule
        (Modelled(ev.list[i].k) /\ ~IsDirNode(ev.list[i].k) /\ ev.list[i].reason = "InputRebuilt" /\ Modelled(ev.list[i].input)) =>
@@ -80,7 +81,7 @@ TNeeds ==
 (* the commands that ran, their statuses, and: a command starts only after the commands producing its inputs finished *)
 StartedAt(seq, c) == CHOOSE i \in 1..Len(seq) : seq[i].c = c /\ seq[i].ev = "S"
 TRan ==
-  /\ Is("Ran") /\ HavePlan
+  /\ Is("Ran") /\ HavePlan /\ ~aborting
   /\ LET started == SelectSeq(ev.seq, LAMBDA x : x.ev = "S")
          finished == SelectSeq(ev.seq, LAMBDA x : x.ev = "F")
      IN /\ Len(started) = Len(plan.ran)
@@ -94,7 +95,7 @@ TRan ==
   /\ UNCHANGED vars /\ UNCHANGED plan /\ Keep
 
 TResult ==
-  /\ Is("Result") /\ HavePlan
+  /\ Is("Result") /\ HavePlan /\ ~aborting
   /\ ev.ok = BuildOk(last.k, plan)
   /\ UNCHANGED vars /\ UNCHANGED plan /\ Keep
 
@@ -102,7 +103,7 @@ TResult ==
 (* Directories: the observed change is adopted (their times come from the kernel clock, see DESIGN.md).             *)
 IsDirIn(F, p) == F[p].t = "dir"
 TFS ==
-  /\ Is("FS") /\ HavePlan
+  /\ Is("FS") /\ HavePlan /\ ~aborting
   /\ LET obs == Changed(ev.changes)
          pred == {p \in DOMAIN fs : plan.fs[p] # fs[p]}
          dirish(p) == IsDirIn(plan.fs, p) \/ IsDirIn(fs, p) \/ (p \in obs /\ ChOf(ev.changes, p).t = "dir")
@@ -144,7 +145,7 @@ RowMatches(k, r, row) ==
   /\ ValMatches(k, r, row)
   /\ IsDirNode(k) \/ (DepSet(row.deps) = DepSet(r.deps) /\ Len(row.deps) = Len(r.deps))
 TDB ==
-  /\ Is("DB") /\ HavePlan /\ ev.ok
+  /\ Is("DB") /\ HavePlan /\ ~aborting /\ ev.ok
   /\ ev.present = hasdb
   /\ LET rows == SelectSeq(ev.rows, LAMBDA row : Modelled(row.k))
          M == plan.db
@@ -162,7 +163,65 @@ TDB ==
               status |-> plan.status, reasons |-> plan.reasons, removed |-> plan.removed, skipped |-> plan.skipped,
               fs0 |-> fs, mem0 |-> mem]
   /\ plan' = NoPlan
-  /\ UNCHANGED <<desc, fs, hasdb, nodes, paths>>
+  /\ UNCHANGED <<desc, fs, hasdb, nodes, paths, aborting>>
+
+(* ----------------------------------------------------------------------------------------------------------- *)
+(* Aborted builds.  A client that cancels the build at the first command failure (what `llbuild buildsystem     *)
+(* build` does) stops the engine somewhere inside the build the specification computes (plan): which rules had   *)
+(* finished by then depends on the order in which ready commands were executed.  Every rule result is a function *)
+(* of its inputs, so whatever finished must be exactly what the complete build would have produced: the observed *)
+(* callbacks, file changes and database rows must be a PART of plan, everything else must be untouched, the      *)
+(* build must report failure and the iteration must still be recorded.  The state afterwards is the observed     *)
+(* part of plan (the generator starts a new frontend after such a build: memory = database).                    *)
+TNeedsA ==
+  /\ Is("Needs") /\ HavePlan /\ aborting
+  /\ NeedSet(ev.list) \subseteq NeedSet(plan.reasons)
+  /\ UNCHANGED vars /\ UNCHANGED plan /\ Keep
+TRanA ==
+  /\ Is("Ran") /\ HavePlan /\ aborting
+  /\ LET started == SelectSeq(ev.seq, LAMBDA x : x.ev = "S")
+         finished == SelectSeq(ev.seq, LAMBDA x : x.ev = "F")
+         startedSet == {started[i].c : i \in 1..Len(started)}
+     IN /\ Len(started) = Cardinality(startedSet)
+        /\ startedSet \subseteq SeqToSet(plan.ran)
+        /\ {[c |-> finished[i].c, s |-> finished[i].s] : i \in 1..Len(finished)} \subseteq SeqToSet(plan.status)
+        /\ \A c \in startedSet :
+             \A u \in (UNION {Producers(x) : x \in SeqToSet(Cmd(c).ins)}) \cap SeqToSet(plan.ran) :
+                \E j \in 1..Len(ev.seq) : ev.seq[j].c = u /\ ev.seq[j].ev = "F" /\ j < StartedAt(ev.seq, c)
+  /\ SeqToSet(ev.removed) \subseteq SeqToSet(plan.removed)
+  /\ UNCHANGED vars /\ UNCHANGED plan /\ Keep
+TResultA ==
+  /\ Is("Result") /\ HavePlan /\ aborting
+  /\ ~ev.ok
+  /\ UNCHANGED vars /\ UNCHANGED plan /\ Keep
+TFSA ==
+  /\ Is("FS") /\ HavePlan /\ aborting
+  /\ LET obs == Changed(ev.changes)
+         dirish(p) == IsDirIn(plan.fs, p) \/ IsDirIn(fs, p) \/ (p \in obs /\ ChOf(ev.changes, p).t = "dir")
+     IN /\ obs \subseteq DOMAIN fs
+        /\ \A p \in obs : ~dirish(p) =>
+              /\ plan.fs[p] # fs[p]
+              /\ ChOf(ev.changes, p).t = plan.fs[p].t /\ ChOf(ev.changes, p).c = plan.fs[p].c /\ ChOf(ev.changes, p).info
+        /\ \A p \in obs : dirish(p) => ChOf(ev.changes, p).t \in {plan.fs[p].t, fs[p].t}
+        /\ fs' = [p \in DOMAIN fs |-> IF p \notin obs THEN fs[p]
+                                     ELSE IF dirish(p) THEN [fs[p] EXCEPT !.t = ChOf(ev.changes, p).t, !.s = @ + 1]
+                                     ELSE plan.fs[p]]
+  /\ UNCHANGED <<desc, mem, db, epoch, hasdb, last, plan>> /\ Keep
+TDBA ==
+  /\ Is("DB") /\ HavePlan /\ aborting /\ ev.ok
+  /\ ev.present = hasdb
+  /\ LET rows == SelectSeq(ev.rows, LAMBDA row : Modelled(row.k))
+         New(k) == k \in DOMAIN plan.db /\ RowMatches(k, plan.db[k], RowOf(rows, k))
+         Old(k) == k \in DOMAIN db /\ RowMatches(k, db[k], RowOf(rows, k))
+     IN /\ hasdb => /\ ev.epoch = epoch + 1                       \* the iteration of a failed build is recorded too
+                    /\ DOMAIN db \subseteq RowKeys(rows) /\ RowKeys(rows) \subseteq DOMAIN plan.db
+                    /\ \A k \in RowKeys(rows) : New(k) \/ Old(k)
+        /\ db' = IF hasdb THEN [k \in RowKeys(rows) |-> IF New(k) THEN plan.db[k] ELSE db[k]] ELSE <<>>
+        /\ mem' = db'
+  /\ epoch' = epoch + 1
+  /\ last' = [a |-> "Aborted", k |-> last.k]
+  /\ plan' = NoPlan /\ aborting' = FALSE
+  /\ UNCHANGED <<desc, fs, hasdb, nodes, paths, sigmap>>
 
 TEnd == Is("End") /\ ~HavePlan /\ UNCHANGED vars /\ UNCHANGED plan /\ Keep
 
@@ -170,16 +229,18 @@ TEnd == Is("End") /\ ~HavePlan /\ UNCHANGED vars /\ UNCHANGED plan /\ Keep
 TBuild2 ==
   /\ Is("Build") /\ ~HavePlan
   /\ plan' = DoBuild(KeyOf(ev.k))
+  /\ aborting' = (ev.cof /\ plan'.failures > 0)
   /\ last' = [a |-> "Building", k |-> KeyOf(ev.k)]
-  /\ UNCHANGED <<desc, fs, mem, db, epoch, hasdb>> /\ Keep
+  /\ UNCHANGED <<desc, fs, mem, db, epoch, hasdb, nodes, paths, sigmap>>
 
 TraceInit ==
   /\ l = 1
   /\ desc = EmptyDesc /\ fs = <<>> /\ mem = <<>> /\ db = <<>> /\ epoch = 0 /\ hasdb = FALSE /\ last = NoLast
-  /\ plan = NoPlan /\ nodes = <<>> /\ paths = <<>> /\ sigmap = {}
+  /\ plan = NoPlan /\ nodes = <<>> /\ paths = <<>> /\ sigmap = {} /\ aborting = FALSE
   /\ TLCSet(1, 0)
 
 TraceNext == TReset \/ TFrontend \/ TMutate \/ TBuild2 \/ TNeeds \/ TRan \/ TResult \/ TFS \/ TDB \/ TEnd
+             \/ TNeedsA \/ TRanA \/ TResultA \/ TFSA \/ TDBA
 TraceSpec == TraceInit /\ [][TraceNext]_tvars
 
 NotAccepted == l <= Len(Log)
